@@ -64,11 +64,17 @@ Init ==
 \* ------------------------------------------------------------------ open / close
 \* Workspace(path, mode=m) / Workspace.open(mode=m) (workspace.py:1183-1215): the tree is re-loaded
 \* from the file, registries are reset; nothing is written.
+\* Loading a file whose content is no longer the pristine one may fail (C10 says nothing about what a writable
+\* session left behind, e.g. two entities for one node after a uid was re-assigned): outcome unconstrained there, a
+\* failed open leaves no handle.
 Open(m) ==
     /\ mode = "closed" /\ ctx = "none" /\ m \in {"r", "r+"}
-    /\ mode' = m /\ live' = "sync"
+    /\ \E out \in Outs :
+         /\ (Pristine => out = "ok")
+         /\ IF out = "ok" THEN mode' = m /\ live' = "sync" /\ ObsW("Open", [m |-> m], out, m = "r+")
+                          ELSE /\ UNCHANGED <<mode, live>>
+                               /\ \E w \in {FALSE, m = "r+"} : ObsW("Open", [m |-> m], out, w)
     /\ UNCHANGED <<fileVersion, ctx>>
-    /\ ObsW("Open", [m |-> m], "ok", m = "r+")
     /\ rep' = "none"
 
 \* Workspace.open(mode=m) on a workspace that is already open (workspace.py:1189-1191): warns and
@@ -91,14 +97,23 @@ Released(v) ==
     \/ v = fileVersion
     \/ /\ mode = "r+" /\ ~Exact /\ fileVersion < MaxVersion         \* final save / purge / repack after writes
        /\ v = fileVersion + 1
-    \/ /\ "RepackOnReadOnlyClose" \in Deviations /\ mode = "r" /\ live = "any" /\ fileVersion < MaxVersion
+    \/ /\ "RepackOnReadOnlyClose" \in Deviations /\ mode = "r" /\ live # "sync" /\ fileVersion < MaxVersion
        /\ v = fileVersion + 1
+\* A WRITABLE handle whose in-memory side is no longer the classified one (after writes, or after a call whose effect
+\* the model does not know, live = "any") is outside C10: its final save may do anything to the content and may fail
+\* (then the handle may or may not have been released).  Read-only and pristine-writable handles are released with
+\* outcome ok.
+Loose == mode = "r+" /\ ~Exact
+ReleaseOutcome(act, args) ==
+    \E out \in Outs :
+        /\ (~Loose => out = "ok")
+        /\ Obs(act, args, out)
+        /\ IF out = "ok" THEN mode' = "closed" ELSE mode' \in {"closed", "r+"}
 Close(how) ==
     /\ mode # "closed"
-    /\ mode' = "closed"
+    /\ ReleaseOutcome("Close", [how |-> how])
     /\ Released(fileVersion')
     /\ UNCHANGED <<live, ctx>>
-    /\ Obs("Close", [how |-> how], "ok")
     /\ rep' = "none"
 
 \* Workspace.save_as(path) (workspace.py:1273-1303): closes, copies the file and re-targets the
@@ -106,10 +121,9 @@ Close(how) ==
 \* point of view of the source file the handle is gone.
 SaveAs ==
     /\ mode # "closed" /\ ctx = "none"
-    /\ mode' = "closed"
+    /\ ReleaseOutcome("SaveAs", [x |-> 0])
     /\ Released(fileVersion')
     /\ UNCHANGED <<live, ctx>>
-    /\ Obs("SaveAs", [x |-> 0], "ok")
     /\ rep' = "none"
 
 \* ------------------------------------------------------------------ the reflective alphabet
@@ -203,19 +217,24 @@ FetchEnter(m) ==
     /\ ctx = "none" /\ m \in {"r", "r+"}
     /\ IF Matches(m)
        THEN /\ ctx' = "keep" /\ UNCHANGED <<mode, live, fileVersion>>
-       ELSE /\ ctx' = "close" /\ mode' = m /\ live' = "sync"
-            /\ IF mode = "closed" THEN fileVersion' = fileVersion
+            /\ ObsW("FetchEnter", [m |-> m], "ok", FALSE)
+       ELSE /\ IF mode = "closed" THEN fileVersion' = fileVersion
                ELSE Released(fileVersion')  \* the open handle (necessarily "r") is closed first: never writes
-    /\ ObsW("FetchEnter", [m |-> m], "ok", ~Matches(m) /\ m = "r+")
+            /\ \E out \in Outs :
+                 /\ (Pristine => out = "ok")            \* loading a modified file may fail, see Open
+                 /\ IF out = "ok" THEN /\ ctx' = "close" /\ mode' = m /\ live' = "sync"
+                                       /\ ObsW("FetchEnter", [m |-> m], out, m = "r+")
+                                  ELSE /\ ctx' = "none" /\ mode' = "closed" /\ UNCHANGED live
+                                       /\ \E w \in {FALSE, m = "r+"} : ObsW("FetchEnter", [m |-> m], out, w)
     /\ rep' = "none"
 \* leaving the with-block: a workspace the helper opened is closed, a workspace yielded as it was is left alone
 FetchExit ==
     /\ ctx # "none"
     /\ ctx' = "none"
-    /\ IF ctx = "close" THEN mode' = "closed" /\ Released(fileVersion')
-                      ELSE mode' = mode /\ fileVersion' = fileVersion
+    /\ IF ctx = "close" /\ mode # "closed"
+       THEN ReleaseOutcome("FetchExit", [x |-> 0]) /\ Released(fileVersion')
+       ELSE mode' = mode /\ fileVersion' = fileVersion /\ Obs("FetchExit", [x |-> 0], "ok")
     /\ UNCHANGED live
-    /\ Obs("FetchExit", [x |-> 0], "ok")
     /\ rep' = "none"
 
 Next ==
